@@ -63,7 +63,38 @@ def handleProx (rest : String) : String :=
     s!"d2={joinWith "," ds}"
   | none => "bad-op"
 
+def parseBox? (s : String) : Option Box :=
+  parseAll (fun t => match ratList? t "," with
+    | some [a, b] => some (a, b)
+    | _ => none) (splitTrim s ";")
+
+def parseArcEntry? (s : String) : Option (Sample × Option Rat) :=
+  match splitKeep s "|" with
+  | [d, h, w] => do
+      let d2 ← parseRat? d
+      let hs ← ratList? h ","
+      let wv ← if w = "n" then some none else (parseRat? w).map some
+      some ((d2, hs), wv)
+  | _ => none
+
+/-- `PCORR <box lo,hi;lo,hi> # <cutoff> # <dr> # <ndensity|-> # <points> # <arc table d2|h,h,..|w ...>`
+  -> `g=<r|n>,... n=<inside> samples=<count> missing=<samples without table entry>` -/
+def handlePcorr (rest : String) : String :=
+  match splitKeep rest "#" with
+  | [b, c, d, n, ps, tb] =>
+    match parseBox? b, parseRat? c, parseRat? d, parseFrame? ps, parseAll parseArcEntry? (words tb) with
+    | some box, some cutoff, some dr, some pts, some tbl =>
+      let nd := if n = "-" then none else parseRat? n
+      let g := pairCorr (arcOfTable tbl) box cutoff dr nd pts
+      let inside := pts.filter (inBox box)
+      let ss := samples box cutoff inside
+      let missing := (ss.filter (fun s => (tbl.lookup s).isNone)).length
+      let gs := joinWith "," (g.map (fun v => match v with | none => "n" | some r => showRat r))
+      s!"g={gs} n={inside.length} samples={ss.length} missing={missing}"
+    | _, _, _, _, _ => "bad-op"
+  | _ => "bad-op"
+
 def handlers : List (String × (String → String)) :=
-  [("CLUSTER", handleCluster), ("PROX", handleProx)]
+  [("CLUSTER", handleCluster), ("PROX", handleProx), ("PCORR", handlePcorr)]
 
 end TrackpyV.Driver.C19
